@@ -137,6 +137,8 @@ namespace sim
       IF_APPLY,
       INTEGER,    // contrib integer rules (may raise / throw overflow)
       TOP,        // top-level shape rules
+      MI_RAISE,   // (must_if program) rule with a custom message that raises on any local failure
+      MI_MSG,     // (must_if program) rule with a custom message that opted out of raising on failure
    };
 
    struct RuleInfo
